@@ -15,7 +15,7 @@ from stix2.datastore.filters import Filter, FilterSet, apply_common_filters
 from stix2.parsing import parse
 from stix2.serialization import fp_serialize
 from stix2.utils import (
-    _timestamp_sort_key, format_datetime, get_type_from_id,
+    _get_dict, _timestamp_sort_key, format_datetime, get_type_from_id,
     parse_into_datetime,
 )
 
@@ -622,6 +622,10 @@ class FileSystemSink(DataSink):
         elif isinstance(stix_data, _STIXBase):
             # adding python STIX object
             self._check_path_and_write(stix_data, pretty=pretty)
+
+        elif isinstance(stix_data, str) and version is not None:
+            # the same for a bundle given as JSON text
+            self.add(_get_dict(stix_data), version=version, pretty=pretty)
 
         elif isinstance(stix_data, dict) and stix_data.get("type") == "bundle":
             # Like the memory sink: each object of a bundle dictionary is added
